@@ -57,6 +57,18 @@ class Opacity(Logger, Citable):
         else:
             wngrid_filter = np.where((self.wavenumberGrid >= wngrid.min()) & (
                 self.wavenumberGrid <= wngrid.max()))[0]
+            if not np.array_equal(self.wavenumberGrid.take(wngrid_filter),
+                                  wngrid):
+                # Interpolation is needed: also take the native point on
+                # either side of the requested range so that every requested
+                # point is interpolated between its own native neighbours
+                # whatever the range requested
+                start = np.searchsorted(self.wavenumberGrid, wngrid.min(),
+                                        side='left') - 1
+                stop = np.searchsorted(self.wavenumberGrid, wngrid.max(),
+                                       side='right') + 1
+                wngrid_filter = np.arange(max(start, 0), min(
+                    stop, self.wavenumberGrid.shape[0]))
 
         orig = self.compute_opacity(temperature, pressure, wngrid_filter)
 
